@@ -1904,6 +1904,25 @@ impl Gen<'_> {
         if let Some(e) = empty {
             out.push(shout(var(&e)));
         }
+        if self.rng.chance(1, 2) {
+            // receivers chosen by an index expression with a side effect of its own (a work list
+            // that is popped): the index is evaluated once per call
+            let ord = self.fresh_name("q");
+            let picks: Vec<Expr> = (0..4).map(|_| num(self.rng.range(0, rows - 1))).collect();
+            out.push(Stmt::Make { name: ord.clone(), init: Some(Expr::Arr(picks)), decl: u32::MAX });
+            self.declare(VarInfo { name: ord.clone(), ty: Ty::arr(Ty::Num), frozen: true, fixed: true, lens: vec![0] });
+            let pick = |g: &Self| Expr::Index(Box::new(var(&m)), Box::new(method(var(&g_name(&ord)), "pop", vec![])));
+            fn g_name(s: &str) -> String { s.to_string() }
+            let v1 = if is_num { self.num_lit() } else { self.str_lit() };
+            out.push(Stmt::Expr(method(pick(self), "push", vec![v1])));
+            out.push(shout(var(&m)));
+            out.push(shout(var(&ord)));
+            out.push(Stmt::Expr(method(pick(self), "reverse", vec![])));
+            let v2 = if is_num { self.num_lit() } else { self.str_lit() };
+            out.push(Stmt::AssignIndex { target: Expr::Index(Box::new(pick(self)), Box::new(num(0))), value: v2 });
+            out.push(shout(var(&m)));
+            out.push(shout(var(&ord)));
+        }
     }
 
     /// Adds one statement; returns true if it ends the block (return / comot / next).
